@@ -12,7 +12,7 @@ use serde_json::{json, Value};
 use std::io::{BufRead, BufReader, BufWriter, Write};
 
 pub async fn run_behaviour(b: &Value, out: &mut Vec<Value>) {
-    let cfg = b["cfg"].clone();
+    let cfg = normalize_cfg(&b["cfg"]);
     let id = b["id"].clone();
     let mut s = Session::start(&cfg).await;
     take_panics();
